@@ -106,8 +106,9 @@ def expect_value_error(res, cid, fn, key):
         res.true(cid, False, key=key, msg="%s instead of ValueError" % type(e).__name__)
 
 
-def stats_claims(res, u, zero_mean, std_one, max_one, key, prefix=""):
-    amp = float(np.max(np.abs(u))) + 1e-300
+def stats_claims(res, u, zero_mean, std_one, max_one, key, prefix="", ref_amp=None):
+    # ref_amp: size of the field before the mean was removed (the rounding error of the subtraction scales with it)
+    amp = max(float(np.max(np.abs(u))), ref_amp or 0.0) + 1e-300
     if zero_mean:
         res.claim(prefix + "zero_mean", abs(float(np.mean(u))), 1e-10 * amp, key=key + ":zero_mean")
     if std_one:
@@ -137,10 +138,13 @@ def check(case):
         res.claim("deterministic_in_key", float(np.max(np.abs(u_again - u))), 0.0, key=k + ":determinism")
         if case["key"] != case["key2"]:
             u_other = np.asarray(gen(N, key=k2))
-            if np.ptp(u) > 0 and np.ptp(u_other) > 0:
+            # not promised by the property, but a generator that ignores its key would be useless: asserted only where a
+            # coincidence cannot happen by accident (outputs with at least three distinct values - a coarse grid with one
+            # normalised discontinuity has few possible outputs)
+            if len(np.unique(np.round(u, 12))) >= 3 and len(np.unique(np.round(u_other, 12))) >= 3:
                 res.true("different_keys_differ", bool(np.max(np.abs(u_other - u)) > 0), key=k + ":determinism")
             else:
-                res.tag("degenerate_constant_output")
+                res.tag("degenerate_few_valued_output")
         return u
 
     def function_form(gen, u, k=key):
@@ -252,8 +256,14 @@ def check(case):
             want = want / np.std(want)
         if mo:
             want = want / np.max(np.abs(want))
-        res.claim("normalised_variant_is_affine_image", float(np.max(np.abs(u - want))), 1e-10 * (float(np.max(np.abs(want))) + 1e-300), key=key + ":normalisation")
-        stats_claims(res, u, zm, so, mo, key)
+        raw_amp = float(np.max(np.abs(raw)))
+        if (zm or so or mo) and float(np.ptp(raw)) < 1e-9 * raw_amp:
+            # the filter left a spatially constant draw (all non-mean modes damped below rounding): removing the mean
+            # leaves rounding noise, whose normalisation says nothing
+            res.tag("degenerate_constant_draw")
+            return res
+        res.claim("normalised_variant_is_affine_image", float(np.max(np.abs(u - want))), 1e-10 * (float(np.max(np.abs(want))) + 1e-300) + (1e-14 * raw_amp if zm and not (so or mo) else 0.0), key=key + ":normalisation")
+        stats_claims(res, u, zm, so, mo, key, ref_amp=raw_amp if not (so or mo) else None)
         return res
     if g == "white":
         gen = I.WhiteNoise(D, std=case["std"])
